@@ -104,7 +104,9 @@ JUNK = [None, 0, -1, 3.5, "", "x", True, [], [0], ["x"], {}, {"a": 1}, [{"a": "b
         # marking-shaped junk (selectors of another kind), also for types that do not define granular_markings
         [{"selectors": [5]}], [{"selectors": 5, "marking_ref": "x"}], [{"selectors": [None, {}, ["name"]], "lang": 5}], [{"marking_ref": ["x"], "selectors": "name"}],
         # text that is hostile to message formatting, as value and as dictionary key
-        "{x}", "%s %(a)s", {"{x}": "v"}, {"{0.x}": 1}, {"{1}": [1]}, {"%s": 1}, {"%(a)s": {"{": "}"}}, [{"{x}": "{y}"}], {"a{}b": ["{0}"]}, ["{0!r:>{1}}"]]
+        "{x}", "%s %(a)s", {"{x}": "v"}, {"{0.x}": 1}, {"{1}": [1]}, {"%s": 1}, {"%(a)s": {"{": "}"}}, [{"{x}": "{y}"}], {"a{}b": ["{0}"]}, ["{0!r:>{1}}"],
+        # integers no double is near (number-typed and id-contributing properties are canonicalized as ECMAScript numbers)
+        10 ** 400, [-(10 ** 310)]]
 # values nested deeper than the interpreter's recursion limit (kept out of JUNK itself: repr/deepcopy/json.dumps of them recurse too)
 DEEP_N = 3000
 
@@ -223,9 +225,13 @@ def run_table_case(ci, ji, allow):
         doc = set_path(base, path, DEEP[JUNK[ji]][0])
     before = reg_snapshot()
     ok = True
-    for how in range(3):
+    for how in range(4):
         try:
-            if how == 0:
+            if how == 3:
+                # a 2.1 observable without an id: the id is computed from the (corrupted) contributing properties
+                if cat == "observables" and ver == "2.1" and isinstance(doc, dict) and "id" in doc and path != "id" and not deep:
+                    stix2.parse_observable({k: v for k, v in doc.items() if k != "id"}, allow_custom=allow, version=ver)
+            elif how == 0:
                 if cat == "observables":
                     stix2.parse_observable(doc, allow_custom=allow, version=ver)
                 else:
